@@ -83,6 +83,8 @@ def gen(rng):
     opts = {'parser': 'lalr', 'lexer': rng.choice(['contextual', 'contextual', 'basic'])}
     if two_starts and need_expr:
         opts['start'] = ['start', 'single']
+    elif rng.random() < 0.2:
+        opts['start'] = rng.choice(['start', ['start']])      # the same start symbol spelled as a string or as a list
     if rng.random() < 0.3:
         opts['keep_all_tokens'] = True
     if rng.random() < 0.3:
